@@ -58,6 +58,23 @@ def panics(rep):
         rep.check(len(sites) >= 1 and bad >= 1, "POSCONTROL", "POSCONTROL/PANIC/" + fn, "fixtures/poscontrol/src/lib.rs", "the planted unguarded panic site is enumerated and left undischarged", "%d sites, %d undischarged" % (len(sites), bad))
 
 
+PANIC_FORMS = ("pf_panic_plain", "pf_panic_msg", "pf_panic_fmt", "pf_unreachable_msg", "pf_unimplemented", "pf_todo", "pf_assert", "pf_assert_eq", "pf_div", "pf_rem",
+               "pf_add", "pf_str_slice", "pf_slice_index", "pf_vec_index", "pf_map_index", "pf_unwrap_or_else::{closure#0}", "pf_expect_err", "pf_vec_remove", "pf_split_at",
+               "pf_refcell", "pf_from_digit", "pf_neg", "pf_shl", "pf_explicit_exit", "pf_abort", "pf_copy_from_slice", "pf_iter_step_by", "pf_chunks", "pf_string_drain",
+               "pf_duration_sub", "pf_array_index", "pf_range_slice")
+
+
+def panic_forms(rep):
+    """every spelling of a panic-capable construct planted in the fixture is enumerated by the MIR site inventory"""
+    try:
+        FX = fixture()
+    except facts.BuildError as e:
+        rep.lost("POSCONTROL", "POSCONTROL/build", "fixture crate builds", str(e)[-200:])
+        return
+    missed = [fn for fn in PANIC_FORMS if fn not in FX.fns or not panic.sites_of(FX, fn)]
+    rep.check(not missed, "POSCONTROL", "POSCONTROL/PANIC-FORMS", "fixtures/poscontrol/src/lib.rs", "all %d planted panic spellings (panic!/unreachable! with and without message, assert!, arithmetic, index/slice forms, std functions that panic, exit/abort) are enumerated" % len(PANIC_FORMS), "missed: " + ", ".join(missed))
+
+
 def droppers(rep):
     try:
         FX = fixture()
